@@ -273,15 +273,25 @@ def calls_on_path(evs: List[Ev], name: Optional[str] = None) -> List[ast.Call]:
     return out
 
 
-def cond_atoms(evs: List[Ev]) -> Dict[str, bool]:
+def cond_atoms(evs: List[Ev], env: Optional[dict] = None) -> Dict[str, bool]:
     """Truth of the normalised atomic conditions established along a path
     (`a != b` is recorded as 'a == b': False; conjunctions that hold and
     disjunctions that fail are split into their operands)."""
     atoms: Dict[str, bool] = {}
     for e in evs:
         if e.kind == "cond":
-            _imply(e.node, e.val, atoms)
-            base, neg = _strip_not(e.node)
+            node = e.node
+            if env:
+                from .sem import resolve
+
+                node = resolve(node, env)
+            _imply(node, e.val, atoms)
+            # isinstance(x, C) being true implies x is not None
+            for k, v in list(atoms.items()):
+                if v and k.startswith("isinstance(") and "," in k:
+                    subj = k[len("isinstance("):k.index(",")].strip()
+                    atoms.setdefault(f"{subj} is None", False)
+            base, neg = _strip_not(node)
             if isinstance(base, ast.BoolOp):
                 key, kneg = _atom_key(base)
                 atoms.setdefault(key, (e.val != neg) != kneg)
